@@ -326,6 +326,14 @@ def type_sites(ty, out):
     return out
 
 
+def _show(code):
+    try:
+        from pytezos.michelson.format import micheline_to_michelson
+        return micheline_to_michelson(code, inline=True)
+    except Exception:  # noqa: BLE001 — display only
+        return json.dumps(code)
+
+
 def shrink(real, prog, ref_obs):
     """prog differs from the stripped run: shortest such prefix, then as few annotations as possible"""
     prog = json.loads(json.dumps(prog))      # no shared sub-objects
@@ -374,6 +382,7 @@ def run(ctx):
         'and of it onto the comb (reference: identity / whole-value replacement on any types), GET n / UPDATE n with n >= 1 on it (must fail); '
         'programs: typed generation over PUSH/PAIR/UNPAIR/PAIR n/UNPAIR n/GET n/UPDATE n/CAR/CDR/DUP/DUP n/SWAP/DIG/DUG/DROP/PACK/UNPACK/SOME/'
         'IF_NONE/LEFT/RIGHT/IF_LEFT/CONS/NIL/IF_CONS/LAMBDA+EXEC/map GET+UPDATE (GET 0 on any top, UPDATE 0 on any two items), each run as generated, re-annotated and stripped; '
+        'wide: programs of the C01/C02 generator (all modelled instruction forms) with annotations on every written type and @var on instructions vs the same program as generated (annotation-free); '
         'non-trivial = some pair type node inside a comb carries an annotation, for the non-pair operands: some type node does (helpers) / the program has >= 3 instructions and uses a comb instruction or PACK (programs)')
     ctx.assumptions += [
         'values outside pair/option/or/list (maps, sets, lambdas, tickets, scalars) are opaque leaves of the comb model, given by their optimized Micheline',
@@ -613,3 +622,101 @@ def run(ctx):
             what = f'annotated run: {os_[0]}, annotation-free run: {oz[0]}'
         ctx.violation(f'annotation-dependent:{last}', f'`{ts}` vs the same program without annotations: {what}',
                       {'program': ts, 'program_without_annotations': tz, 'annotated_result': repr(os_)[:600], 'unannotated_result': repr(oz)[:600]})
+
+    # ================================================================= wide stream
+    # every instruction form of the interpreter model (generator of C01/C02), randomly annotated, against itself without annotations
+    from harness import gen_c17_wide as W
+    from harness import gen_interp, interp_run
+    from harness.props.c01 import gen_env
+    g = gen_interp.Gen(rng)
+    n_wide = 700 if quick else 25000
+    found = {}
+
+    import signal
+
+    class _Timeout(Exception):
+        pass
+
+    def _alarm(signum, frame):
+        raise _Timeout()
+
+    def obs(code, env, limit=3.0):
+        # the real interpreter has no step budget: a shrinking candidate may loop for ever (a LOOP body without its decrement)
+        old = signal.signal(signal.SIGALRM, _alarm)
+        signal.setitimer(signal.ITIMER_REAL, limit)
+        try:
+            return W.observe(interp_run.run_real(code, env))
+        except _Timeout:
+            return ('timeout',)
+        except Exception as e:      # noqa: BLE001 — an exception other than MichelsonRuntimeError escaping from the interpreter
+            return ('crash', type(e).__name__)
+        finally:
+            signal.setitimer(signal.ITIMER_REAL, 0)
+            signal.signal(signal.SIGALRM, old)
+
+    shrunk_per_key = {}
+
+    for wi in range(n_wide):
+        code, _st = g.program(rng.choice([3, 5, 8, 12, 16]))
+        env = gen_env(rng)
+        plain = obs(code, env)
+        text = json.dumps(code)
+        ctx.case({'stream': 'wide', 'code': code if gen_interp.code_size(code) < 10 else f'<{gen_interp.code_size(code)} instrs>', 'h': hash(text) & 0xffffffff},
+                 nontrivial=any(k in text for k in ('"LAMBDA"', '"MAP"', '"ITER"', '"LOOP', '"IF', '"EMPTY_', '"NIL"', '"LEFT"', '"RIGHT"', '"NONE"')))
+        ctx.count('wide-outcome', plain[0])
+        for dens in (0.35, 1.0):
+            ann = W.annotate_code(rng, code, dens)
+            got = obs(ann, env)
+            if got == plain:
+                continue
+            # shrink: drop top-level instructions while the annotated / plain pair still differs and the plain run keeps its outcome
+            cur_a, cur_p = ann, code
+            try:
+                m0 = interp_run.run_real(ann, env)
+                k0 = str(m0[1]).split(' ')[0] if m0[0] == 'err' else m0[0]
+            except Exception as e:      # noqa: BLE001
+                k0 = type(e).__name__
+            shrunk_per_key[k0] = shrunk_per_key.get(k0, 0) + 1
+            changed = shrunk_per_key[k0] <= 3          # shrink the first few of every kind only
+            while changed:
+                changed = False
+                for path in W.seq_paths(cur_p):
+                    ca, cp = W.remove_at(cur_a, path), W.remove_at(cur_p, path)
+                    op = obs(cp, env)
+                    if op[0] == plain[0] and op[0] != 'timeout' and obs(ca, env) != op:
+                        cur_a, cur_p, changed = ca, cp, True
+                        break
+            # then take annotations off one site at a time
+            def sites(m, acc):
+                if isinstance(m, list):
+                    for x in m:
+                        sites(x, acc)
+                elif isinstance(m, dict):
+                    if m.get('annots'):
+                        acc.append(m)
+                    for a in m.get('args', []):
+                        sites(a, acc)
+                return acc
+            cur_a = json.loads(json.dumps(cur_a))
+            for site in sites(cur_a, []):
+                saved = site.pop('annots')
+                if obs(cur_a, env) == obs(cur_p, env):
+                    site['annots'] = saved
+            oa, op = obs(cur_a, env), obs(cur_p, env)
+            try:
+                msg = interp_run.run_real(cur_a, env)
+                detail = msg[1] if msg[0] == 'err' else msg[0]
+            except Exception as e:      # noqa: BLE001
+                detail = f'{type(e).__name__}: {e}'
+            # name the instruction that raised (first word of the interpreter's message) when there is one
+            # … the innermost one of the interpreter's `OUTER -> INNER -> message` trail
+            trail = [w for w in str(detail).split(' -> ') if w.replace('_', '').isalnum() and w.isupper()] if oa[0] == 'err' else []
+            first = trail[-1] if trail else W.last_prim(cur_p)
+            key = f'annotation-dependent:{first}'
+            if key not in found or len(json.dumps(cur_a)) < len(json.dumps(found[key][0])):
+                found[key] = (cur_a, cur_p, oa, op, str(detail)[:200])
+    for key, (ca, cp, oa, op, detail) in sorted(found.items()):
+        ctx.violation(key, f'`{_show(ca)}` vs the same program without annotations: annotated run {oa[0]} ({detail}), annotation-free run {op[0]}',
+                      {'program': ca, 'program_without_annotations': cp, 'annotated_result': repr(oa)[:600], 'unannotated_result': repr(op)[:600]})
+    ctx.extra['wide_programs'] = n_wide
+    ctx.extra['wide_instruction_mix'] = dict(sorted(g.used.items()))
